@@ -234,10 +234,23 @@ func (c *Ctx) ruleChildren(rule string) {
 			for _, b := range fn.Blocks {
 				for _, in := range b.Instrs {
 					call, ok := in.(*ssa.Call)
-					if !ok || !call.Call.IsInvoke() || !dataMethod[call.Call.Method.Name()] {
+					if !ok {
 						continue
 					}
-					ld, ok := call.Call.Value.(*ssa.UnOp)
+					var opRecv ssa.Value
+					if call.Call.IsInvoke() && dataMethod[call.Call.Method.Name()] {
+						opRecv = call.Call.Value
+					} else if _, r, _, isOp := c.opCall(&call.Call); isOp && !call.Call.IsInvoke() {
+						// the operation made through a dispatcher (validateCompatibilityIn(child, x, compared))
+						opRecv = r
+					}
+					if ci, isCI := opRecv.(*ssa.ChangeInterface); isCI {
+						opRecv = ci.X
+					}
+					if mi, isMI := opRecv.(*ssa.MakeInterface); isMI {
+						opRecv = mi.X
+					}
+					ld, ok := opRecv.(*ssa.UnOp)
 					if !ok {
 						continue
 					}
@@ -393,7 +406,7 @@ func (c *Ctx) ruleNoCoerce(rule string) {
 			if seen[e.To] || e.Site == nil {
 				continue
 			}
-			if e.To.Name() == "ValidateCompatibility" {
+			if compatName(e.To.Name()) == "ValidateCompatibility" {
 				// Validate / Serialize must not decide anything through the compatibility check: on data it is "would
 				// Unserialize accept this" (lenient conversions) plus schema-compatibility strictness (homogeneous lists),
 				// and it re-creates errors, losing their paths
